@@ -4011,7 +4011,9 @@ func (s *BgpServer) updateNeighbor(c *oc.Neighbor) (needsSoftResetIn bool, err e
 
 		if err = s.deleteNeighbor(&conf, bgp.BGP_ERROR_CEASE, sub, true); err != nil {
 			// rollback to original ApplyPolicy
+			peer.fsm.lock.Lock()
 			peer.fsm.pConf.Update(original)
+			peer.fsm.lock.Unlock()
 
 			peer.fsm.logger.Error("failed to delete neighbor", slog.String("Err", err.Error()))
 			return needsSoftResetIn, err
@@ -4019,7 +4021,9 @@ func (s *BgpServer) updateNeighbor(c *oc.Neighbor) (needsSoftResetIn bool, err e
 		err = s.addNeighbor(c)
 		if err != nil {
 			// rollback to original ApplyPolicy
+			peer.fsm.lock.Lock()
 			peer.fsm.pConf.Update(original)
+			peer.fsm.lock.Unlock()
 
 			peer.fsm.logger.Error("failed to add neighbor", slog.String("Err", err.Error()))
 		}
